@@ -70,6 +70,12 @@ def gen_cases(tier, rng):
             for dropdt in (0, 1):
                 for sc in (0, 1):
                     cases.append((tb.case_txt([d], tb.opts(s=sc, exact=exact, dropdt=dropdt)), "tb-opts"))
+    # the tokenizer's exact_errors (tx) changes how text reaches the tree builder (one character per token): the tree
+    # must not notice — text next to tables, in frameset/colgroup/select, leading white space of every mode
+    for d in TEXT_DOCS:
+        for tx in (0, 1):
+            for exact in (0, 1):
+                cases.append((tb.case_txt([d], tb.opts(s=0, exact=exact, tx=tx)), "tb-opts"))
     # discard_bom
     for s in ["﻿x", "﻿", "x﻿", "﻿﻿<a>", "<a>﻿", "", "x"]:
         for ch in ([s], tc.singletons(s)):
@@ -86,6 +92,11 @@ DOCTYPES = ["", "<!DOCTYPE html>", "<!doctype HTML>", "<!DOCTYPE html SYSTEM 'ab
             "<!DOCTYPE html PUBLIC '+//Silmaril//dtd html Pro v0r11 19970101//EN'>", " <!--c--> <!DOCTYPE html PUBLIC 'x'>"]
 BODIES = ["", "x", "<p>a<table>b", "<table><td><p>c</td>d", "<!DOCTYPE a><p>", "<svg><b>x", "<frameset>", "<p><b><i></p>x</b>y", "\0<select>a"]
 TREE_DOCS = [d + b for d in DOCTYPES for b in BODIES]
+TEXT_DOCS = ["<table> a b<tr> c d <td> e f </td> g h </table> i j", "<table>  <tbody> x y <tr> z", "<table>a <caption> b c </caption> d",
+             "<table><colgroup> a b <col> c", "<frameset> a b </frameset> c d", "<select> a b <option> c d </select> e",
+             " a b <head> c d </head> e f <body> g h", "<html> a <head> b", "<head></head> a b", "<body></body> a b </html> c d",
+             "<pre>\n a\n b</pre><textarea>\n\n c </textarea>", "<svg> a b <p> c d", "<template> a b <td> c d", "a\0b <table>\0 c\0</table>",
+             "<p>a &amp; b<table> &lt; c &gt; </table>", "<table><tr> a&#32;b <td>", "<ruby> a <rt> b </ruby> c"]
 
 
 def compare(line, impl, model):
